@@ -67,6 +67,7 @@ func cmdCheck(args []string) {
 	fs.Parse(args)
 	start := time.Now()
 	curTier = *tier
+	checkProp = *prop
 	seed := 0
 	if s := os.Getenv("VERIF_SEED"); s != "" {
 		seed, _ = strconv.Atoi(s)
